@@ -730,7 +730,9 @@ func vmCallOK(vm *VM, cfunc *CompiledFunction, numArgs int) bool {
 		}) &&
 		vm.ip < len(vm.curInsts)-4 &&
 		0 <= vm.frameIndex && vm.frameIndex < frameSize &&
-		0 <= vm.curFrame.basePointer && vm.curFrame.basePointer < stackSize && vm.curFrame.basePointer+cfunc.NumLocals < stackSize
+		0 <= vm.curFrame.basePointer && vm.curFrame.basePointer < stackSize && vm.curFrame.basePointer+cfunc.NumLocals < stackSize &&
+		// a function calling itself has its own locals below the callee object and the arguments
+		(cfunc != vm.curFrame.fn || vm.curFrame.basePointer+cfunc.NumLocals <= vm.sp-numArgs-1)
 }
 
 // specWidthsOK: an operand width list as found in the opcode tables.
@@ -941,4 +943,26 @@ func specMapHas(v any, key string, val Object) bool {
 func specPoolHas(v *vmPool, vm *VM) bool {
 	_, ok := v.vms[vm]
 	return ok
+}
+
+// specVarArgs: o is the array holding exactly rest[0], rest[1], ...
+func specVarArgs(o Object, rest []Object) bool {
+	a, ok := o.(Array)
+	return ok && len(a) == len(rest) && verifrt.Forall(func(j int) bool {
+		return !(0 <= j && j < len(rest)) || a[j] == rest[j]
+	})
+}
+
+// specFixedParams: number of parameters bound one to one (all but a variadic last one).
+func specFixedParams(cf *CompiledFunction) int {
+	if cf.Variadic {
+		return cf.NumParams - 1
+	}
+	return cf.NumParams
+}
+
+// specVarArgsIn: specVarArgs, and the array does not live in the VM stack itself.
+func specVarArgsIn(o Object, rest []Object, stack []Object) bool {
+	a, ok := o.(Array)
+	return ok && specVarArgs(o, rest) && verifrt.Disjoint([]Object(a), stack)
 }
